@@ -41,3 +41,10 @@ Fixpoint run_nonrefreshing (refresh expire : Z) (s : lsess) (reqs : list (Z * bo
     | None => None
     end
   end.
+
+(* ---- the expiry of a session a provider has just refreshed ----
+   SessionState.ExpiresIn(d) sets ExpiresOn := CreatedAt + d.  The providers that are told a lifetime d by the token
+   endpoint (Google, login.gov) re-stamp the session first (CreatedAtNow), so that the lifetime counts from the
+   refresh; restamp = false is the same call without it. *)
+Definition expiry_after_refresh (restamp : bool) (created now d : Z) : Z := (if restamp then now else created) + d.
+Definition usable_after_refresh (restamp : bool) (created now d : Z) : bool := now <? expiry_after_refresh restamp created now d.
